@@ -157,9 +157,22 @@ def run(ctx):
             te = set((sb, ts) for sb, ts, fs in bool_uses(rj, s_['p'][0]))
             if te and dominated_by_edges(rj, ins[0], te):
                 dom_cc = True
-        e_some, calls = guard_edges(rj, 'core::option::Option::is_some', True)
-        reach_some = any(ins[0] in rj.reach_from([tgt]) for sb, tgt in e_some)
-        ctx.ob('R06.5', 'restore_job|adjust whenever an instance was seen', (not dom_cc) and reach_some,
+        # the insert is reachable on a path where every `crash_counter > 0` test is false (a task that was started but
+        # never crashed) -- whatever form the instance-id test takes (is_some(), if-let, let-else, match)
+        cc_true = set()
+        for bi, s_ in gt:
+            cc_true |= set((sb, ts) for sb, ts, fs in bool_uses(rj, s_['p'][0]))
+        reach_nocc = ins[0] in rj.reach_from([0], avoid_edges=cc_true)
+        # ... and on a path where the recorded instance id is Some
+        e_none, _c = guard_edges(rj, 'core::option::Option::is_none', True)
+        from hqrules.templates import scrutinees as _scr
+        some_ok = not (e_none and dominated_by_edges(rj, ins[0], set(e_none)))
+        for k_, d_ in _scr(rj, 'core::option::Option').items():
+            if 'instance_id' in k_:
+                vs_ = variants_at(rj, 'core::option::Option', ins[0], k_)
+                if vs_ is not None and 'Some' not in vs_:
+                    some_ok = False
+        ctx.ob('R06.5', 'restore_job|adjust whenever an instance was seen', (not dom_cc) and reach_nocc and some_ok,
                'the adjust entry is written whenever the task has a recorded instance id (not only when it crashed): a started-but-not-crashed task must be re-run with last+1, not with instance 0', rj.loc(ins[0]))
     # (b) the adjust map is consumed by a function that writes Task.instance_id
     readers = set(o for o, b, bi, st in __import__('hqrules.templates', fromlist=['x']).field_read_sites(prog, 'tako::gateway::TaskSubmit', 'adjust_instance_id_and_crash_counters') if not is_test_util(o))
